@@ -176,6 +176,14 @@ UNITS["C04"] = [
 ]
 
 UNITS["C17"] = [
+    dict(kind="verus", name="c17_pool_config", template="specs/c17_pool_config.vrs",
+         under_contract=["Config::read_only", "Config::max_size", "frag_read_pool"], vacuity=["read_only", "max_size", "frag_read_pool"],
+         trusted=["Config::new gives the default (read-write) open flags and the path as passed (body builds deadpool values; assumed)",
+                  "create_pool_transform opens every connection of the pool with Config.open_flags (deadpool Manager / rusqlite open_with_flags; external)",
+                  "OpenFlags stand-in carries SQLite's C constants (READ_ONLY 0x1, READ_WRITE 0x2, CREATE 0x4, URI 0x40, NO_MUTEX 0x8000) and rusqlite's default READ_WRITE|CREATE|URI|NO_MUTEX",
+                  "SQLite refuses writes on a connection opened with SQLITE_OPEN_READ_ONLY"],
+         assumptions=["`mut self` builder methods: `self` renamed to a mutable local (Verus has no `mut self`); PathBuf/Timeouts/QueueMode are opaque values",
+                      "fragment = the `let ro_pool = …` statement of SplitPool::create; `?` dropped (the Err case promises nothing)"]),
     dict(kind="kani", name="c17_token", crate="kani/c17_token",
          harnesses=[dict(name="token_decision_len2", bound="configured token and presented token: printable ASCII, length <= 2 each (prefix / suffix / empty cases are inside the bound)"),
                     dict(name="token_decision_len3", tier="thorough", bound="same, length <= 3")],
